@@ -75,7 +75,7 @@ fn h_assume_derive_order() {
     assert_eq!((x..=y) == (z..=w), a == c && b == d);
 }
 
-//# id=mask.from_bitcount props=C09 kind=complete pair=subnet.Ipv4Mask.from_bitcount.top_n_ones,subnet.Ipv4Mask.from_bitcount.contiguous,subnet.Ipv4Mask.count_ones.inverse_of_from_bitcount,subnet.Ipv4Mask.try_from_u32.safety
+//# id=mask.from_bitcount fns=Ipv4Mask::from_bitcount+count_ones+try_from+ips_in_net+usable_ips props=C09 kind=complete pair=subnet.Ipv4Mask.from_bitcount.top_n_ones,subnet.Ipv4Mask.from_bitcount.contiguous,subnet.Ipv4Mask.count_ones.inverse_of_from_bitcount,subnet.Ipv4Mask.try_from_u32.safety
 #[cfg_attr(kani, kani::proof)]
 #[cfg_attr(vx_replay, test)]
 fn h_mask() {
@@ -93,7 +93,7 @@ fn h_mask() {
     assert_eq!(m.usable_ips(), if w <= 1 { 0 } else { w - 1 });
 }
 
-//# id=net.contains_overlaps props=C09 kind=complete pair=subnet.Ipv4Net.new.establishes_invariant,subnet.Ipv4Net.new.id_is_masked_ip,subnet.Ipv4Net.new.contains_its_seed,subnet.Ipv4Net.broadcast.last_address,subnet.Ipv4Net.broadcast.safety,subnet.Ipv4Net.contains.exactly_id_to_broadcast,subnet.Ipv4Net.overlaps.iff_ranges_intersect,subnet.Ipv4Net.range.id_to_broadcast,subnet.Ipv4Net.new_1.single_address
+//# id=net.contains_overlaps fns=Ipv4Net::new+id+broadcast+contains+overlaps+range+new_1 props=C09 kind=complete pair=subnet.Ipv4Net.new.establishes_invariant,subnet.Ipv4Net.new.id_is_masked_ip,subnet.Ipv4Net.new.contains_its_seed,subnet.Ipv4Net.broadcast.last_address,subnet.Ipv4Net.broadcast.safety,subnet.Ipv4Net.contains.exactly_id_to_broadcast,subnet.Ipv4Net.overlaps.iff_ranges_intersect,subnet.Ipv4Net.range.id_to_broadcast,subnet.Ipv4Net.new_1.single_address
 #[cfg_attr(kani, kani::proof)]
 #[cfg_attr(vx_replay, test)]
 fn h_net() {
@@ -117,7 +117,7 @@ fn h_net() {
     assert!(one.id().to_u32() == ip && one.broadcast().to_u32() == ip);
 }
 
-//# id=net.try_from_range props=C09 kind=complete pair=subnet.Ipv4Net.try_from_range.iff_aligned_power_of_two_block,subnet.Ipv4Net.try_from_range.returns_that_network,subnet.Ipv4Net.try_from_range.safety
+//# id=net.try_from_range fns=Ipv4Net::try_from(RangeInclusive) props=C09 kind=complete pair=subnet.Ipv4Net.try_from_range.iff_aligned_power_of_two_block,subnet.Ipv4Net.try_from_range.returns_that_network,subnet.Ipv4Net.try_from_range.safety
 #[cfg_attr(kani, kani::proof)]
 #[cfg_attr(vx_replay, test)]
 fn h_try_from_range() {
